@@ -143,17 +143,57 @@ Theorem C02_contract_legacy_then_v2 :
 Proof. exact contract_legacy_then_v2. Qed.
 Print Assumptions C02_contract_legacy_then_v2.
 
-(* C02_progress (not proved): a response holding one complete batch with a record >= o delivers
-   at least one record *)
+(* C02_progress: a response whose first batch (whole, by the cut rule) contains a record >= o
+   delivers at least one record.  Full statement kept as a Definition; proved for the three
+   families of responses below (compressed v0/v1 wrappers are the missing part). *)
 Definition C02_progress_full_statement : Prop :=
   forall (compress : Z -> list N -> list N) (decomp : Z -> list N -> option (list N)),
     (forall c x, decomp c (compress c x) = Some x) ->
   forall log l o k hwm fuel ms e f,
     log_ok log -> layout_ok log l -> formats_ordered 0 l ->
     valid_cut compress l o k -> hwm <> o ->
-    (exists b r, In b (firstn 1 (from_offset l o)) /\ In r (pb_recs b) /\ o <= r_off r) ->
+    (exists b r, hd_error (from_offset l o) = Some b /\ In r (pb_recs b) /\ o <= r_off r) ->
     fetch_run decomp fuel o hwm (fetch_response compress l o k) (Z.of_nat k) false = Some (ms, e, f) ->
     e <> EFuel -> ms <> [].
+
+Theorem C02_progress_v2_partial :
+  forall (compress : Z -> list N -> list N) (decomp : Z -> list N -> option (list N)),
+  (forall c x, decomp c (compress c x) = Some x) ->
+  forall log l o k hwm,
+  log_ok log -> layout_ok log l ->
+  Forall (fun b => pb_fmt b = 2) (from_offset l o) -> Forall (v2ok compress) (from_offset l o) ->
+  from_offset l o <> [] -> valid_cut compress l o k -> hwm <> o ->
+  (exists b r, hd_error (from_offset l o) = Some b /\ In r (pb_recs b) /\ o <= r_off r) ->
+  forall fuel ms e f, (S (tokens [] (from_offset l o)) <= fuel)%nat ->
+  fetch_run decomp fuel o hwm (fetch_response compress l o k) (Z.of_nat k) false = Some (ms, e, f) ->
+  ms <> [].
+Proof. exact progress_v2. Qed.
+Print Assumptions C02_progress_v2_partial.
+
+(* for v0/v1 the first batch of the response always reaches the fetch offset (its last record is
+   at or after o), so no extra hypothesis is needed *)
+Theorem C02_progress_legacy_uncompressed_partial :
+  forall (compress : Z -> list N -> list N) (decomp : Z -> list N -> option (list N)) log l o k hwm,
+  log_ok log -> layout_ok log l -> Forall legacy_ok l -> 0 <= o ->
+  from_offset l o <> [] -> valid_cut compress l o k -> hwm <> o ->
+  forall fuel ms e f, (length (all_items (from_offset l o)) + 4 <= fuel)%nat ->
+  fetch_run decomp fuel o hwm (fetch_response compress l o k) (Z.of_nat k) false = Some (ms, e, f) ->
+  ms <> [].
+Proof. exact progress_legacy_uncompressed. Qed.
+Print Assumptions C02_progress_legacy_uncompressed_partial.
+
+Theorem C02_progress_legacy_then_v2_partial :
+  forall (compress : Z -> list N -> list N) (decomp : Z -> list N -> option (list N)),
+  (forall c x, decomp c (compress c x) = Some x) ->
+  forall log lg v2 o k hwm,
+  log_ok log -> layout_ok log (lg ++ v2) ->
+  Forall legacy_ok lg -> Forall (fun b => pb_fmt b = 2) v2 -> Forall (v2ok compress) v2 -> 0 <= o ->
+  from_offset lg o <> [] -> valid_cut compress (lg ++ v2) o k -> hwm <> o ->
+  forall fuel ms e f, (length (all_items (from_offset lg o)) + tokens [] v2 + 5 <= fuel)%nat ->
+  fetch_run decomp fuel o hwm (fetch_response compress (lg ++ v2) o k) (Z.of_nat k) false = Some (ms, e, f) ->
+  ms <> [].
+Proof. exact progress_legacy_then_v2. Qed.
+Print Assumptions C02_progress_legacy_then_v2_partial.
 
 (* C02_conn_offset_advances, in full and for every response whatsoever (any bytes, any cut, any
    codec behaviour): Conn.offset after Batch.close is never below the offset the fetch was
@@ -282,3 +322,11 @@ Example C02_instance_reader :
         LTake; LTake; LTake; LTake; LTake; LTake])
   = Some (map msg_of (firstn 2 (from 12 (layout_records ex_layout)))).
 Proof. vm_compute. reflexivity. Qed.
+
+(* ---- the synchronisation skeleton the model assumes (which Go critical section / channel operation each step of Model/Lifecycle.v, Model/GroupReader.v, Model/ReaderModel.v stands for, reader_assumptions: Model/SkeletonAssumptions.v)
+   holds of /repo's CURRENT source: call/access facts regenerated by harness/cmd/vskel on every run. *)
+From KV Require Model.SkeletonAssumptions Gen.Skeleton Proofs.SkeletonReader.
+Theorem C02_skeleton_assumptions :
+  KV.Model.SkeletonAssumptions.reader_assumptions_hold KV.Gen.Skeleton.calls KV.Gen.Skeleton.accesses = true.
+Proof. exact KV.Proofs.SkeletonReader.reader_skeleton_ok. Qed.
+Print Assumptions C02_skeleton_assumptions.
